@@ -103,6 +103,21 @@ func (m *monC05) PostCall(s *Sim, c *Call) {
 		s.Probe("c05.adopted-after-active-vanished")
 		return
 	}
+	// The write must not land on a newer version than the one the decision was taken on
+	// (optimistic concurrency is what makes a concurrent pause or template change safe): if it
+	// did, the decision is judged against the object it was written onto.
+	if mstr(meta(toMap(c.Pre)), "resourceVersion") != v.EDS.ResourceVersion {
+		s.Probe("c05.switch-on-newer-version")
+		if pre.Spec.Strategy.Canary != nil {
+			if annTrue(pre.Annotations, edsv1.ExtendedDaemonSetCanaryPausedAnnotationKey) && pre.Annotations[edsv1.ExtendedDaemonSetCanaryValidAnnotationKey] != y {
+				s.Violate("C05", "paused-promoted", "stale-write", "%s promoted %s with a status write that landed on a newer version of the object carrying canary-paused=true (decision taken on resourceVersion %s)", t.Label(), y, v.EDS.ResourceVersion)
+				s.Violate("C08", "paused-promoted", "stale-write", "%s promoted %s with a status write that landed on a newer version of the object carrying canary-paused=true", t.Label(), y)
+			}
+			if letterOfTpl(&pre.Spec.Template) != letterOfTpl(&Y.Spec.Template) {
+				s.Violate("C05", "target", "stale-write", "%s switched the active replica set to %s (template %s) with a status write that landed on a newer version whose spec.template is %s", t.Label(), y, letterOfTpl(&Y.Spec.Template), letterOfTpl(&pre.Spec.Template))
+			}
+		}
+	}
 	can := v.EDS.Spec.Strategy.Canary
 	if can == nil {
 		s.Probe("c05.no-canary-switch")
